@@ -392,8 +392,11 @@ func runC10(ctx *core.Ctx) {
 		for _, sf := range []string{"-start", "-end", "-inline", "-block", "-inline-start", "-block-end", "-top", "-left", "-x", "-y", "-color", "-width", "-style", "x", "-"} {
 			names = append(names, p+sf)
 		}
-		for _, pf := range []string{"x", "x-", "scrollbar-", "inner-"} {
+		for _, pf := range []string{"x", "x-", "scrollbar-", "inner-", "--", "--x-"} {
 			names = append(names, pf+p)
+		}
+		if cs.Index == 0 {
+			names = append(names, "--accent", "--x", "--", "---")
 		}
 		for _, name := range names {
 			if known[name] || known[strings.TrimLeft(name, "-")] {
